@@ -28,13 +28,16 @@ NSHARDS = int(os.environ.get('VERIF_SHARDS', '16'))
 
 class Result:
     """What the executor+oracle say about one case."""
-    __slots__ = ('violations', 'nontrivial', 'classes', 'outcome')
+    __slots__ = ('violations', 'nontrivial', 'classes', 'outcome', 'evals', 'nt_count')
 
     def __init__(self, violations=None, nontrivial=False, classes=(), outcome=None):
         self.violations = list(violations or [])   # [(clause, details)]
         self.nontrivial = bool(nontrivial)
         self.classes = list(classes)
         self.outcome = outcome
+        self.evals = 1          # number of sub-cases evaluated by this case (batched enumerations)
+        self.nt_count = 0       # batched enumerations: number of non-trivial sub-cases,
+                                # distinct by construction (each enumerated exactly once)
 
     def fail(self, clause, details=None):
         self.violations.append((clause, details))
@@ -93,6 +96,7 @@ class Collector:
     def __init__(self):
         self.evaluations = 0
         self.nontrivial = set()
+        self.nt_enumerated = 0
         self.classes = {}
         self.samples = []
         self.known_hits = {}
@@ -100,10 +104,11 @@ class Collector:
         self.sources = {}
 
     def record(self, case, res, source):
-        self.evaluations += 1
-        self.sources[source] = self.sources.get(source, 0) + 1
+        self.evaluations += res.evals
+        self.sources[source] = self.sources.get(source, 0) + res.evals
         for label in res.classes:
             self.classes[label] = self.classes.get(label, 0) + 1
+        self.nt_enumerated += res.nt_count
         if res.nontrivial:
             h = case_hash(case)
             if h not in self.nontrivial:
@@ -116,6 +121,7 @@ class Collector:
     def merge(self, other):
         self.evaluations += other['evaluations']
         self.nontrivial |= set(other['nontrivial'])
+        self.nt_enumerated += other['nt_enumerated']
         for k, v in other['classes'].items():
             self.classes[k] = self.classes.get(k, 0) + v
         for k, v in other['sources'].items():
@@ -130,6 +136,7 @@ class Collector:
     def export(self):
         return {
             'evaluations': self.evaluations, 'nontrivial': list(self.nontrivial),
+            'nt_enumerated': self.nt_enumerated,
             'classes': self.classes, 'samples': self.samples, 'sources': self.sources,
             'known_hits': self.known_hits, 'violations': self.violations}
 
@@ -286,7 +293,7 @@ def write_evidence(mod, tier, seed, coll, wall_s, nviol, exhaustive_text, extra=
     hist = {k: f"{v} ({100.0 * v / total:.1f}%)" for k, v in sorted(coll.classes.items())}
     coverage = {
         'evaluations': coll.evaluations,
-        'distinct_nontrivial': len(coll.nontrivial),
+        'distinct_nontrivial': len(coll.nontrivial) + coll.nt_enumerated,
         'rule': mod.RULE,
         'samples': coll.samples[:Collector.MAX_SAMPLES],
         'class_histogram': hist,
@@ -387,7 +394,8 @@ def main_check(prop_id, tier, replay=None):
     write_evidence(mod, tier, seed, coll, time.time() - t0, nviol, exhaustive_text)
     total = coll.evaluations
     print(f"{mod.ID} tier={tier} seed={seed}: {total} cases, "
-          f"{len(coll.nontrivial)} distinct non-trivial, {time.time() - t0:.1f}s")
+          f"{len(coll.nontrivial) + coll.nt_enumerated} distinct non-trivial, "
+          f"{time.time() - t0:.1f}s")
     if failure is not None:
         case, viol, origin = failure
         path = write_replay(mod, case, viol, seed, tier)
